@@ -55,6 +55,9 @@ type Fail struct {
 	Once  bool   // fail only the first time that point is reached in the process
 	Times int    // with Once: fail the first Times times instead of once (0 = 1)
 	AtEOF bool   // writerfunc: fail on the call that carries end-of-stream (instead of at Row)
+	// WithRows: a failing readerfunc call returns its error together with rows (n > 0), as the
+	// reader contract allows, instead of with none
+	WithRows bool `json:",omitempty"`
 }
 
 type Prog struct {
